@@ -69,9 +69,58 @@ class _Subst(ast.NodeTransformer):
         return n
 
 
+def _always_returns(stmts):
+    if not stmts:
+        return False
+    last = stmts[-1]
+    if isinstance(last, (ast.Return, ast.Raise)):
+        return True
+    if isinstance(last, ast.If) and last.orelse:
+        return _always_returns(last.body) and _always_returns(last.orelse)
+    return False
+
+
+def _ladder(stmts, rv):
+    """Statements with early returns rewritten so that the result is assigned to `rv` and control falls off the end.
+    Returns None when the shape is not a plain if/else ladder (returns inside loops, try, with)."""
+    out = []
+    for i, st in enumerate(stmts):
+        if isinstance(st, ast.Return):
+            val = st.value if st.value is not None else ast.Constant(value=None)
+            out.append(ast.copy_location(ast.Assign(targets=[ast.Name(id=rv, ctx=ast.Store())], value=val, type_comment=None), st))
+            return out
+        if isinstance(st, ast.If):
+            has_ret = any(isinstance(x, ast.Return) for x in ast.walk(st))
+            if not has_ret:
+                out.append(st)
+                continue
+            body = _ladder(st.body, rv)
+            if body is None:
+                return None
+            rest = stmts[i + 1:]
+            if _always_returns(st.body) and not st.orelse:
+                orelse = _ladder(rest, rv)
+                if orelse is None:
+                    return None
+                out.append(ast.copy_location(ast.If(test=st.test, body=body, orelse=orelse), st))
+                return out
+            orelse = _ladder(st.orelse, rv) if st.orelse else []
+            if orelse is None:
+                return None
+            if _always_returns(st.body) and _always_returns(st.orelse):
+                out.append(ast.copy_location(ast.If(test=st.test, body=body, orelse=orelse), st))
+                return out
+            return None   # a return on only some paths followed by more code: not a ladder
+        if any(isinstance(x, ast.Return) for x in ast.walk(st)):
+            return None
+        out.append(st)
+    return out
+
+
 def inline_new_helpers(module_name, tree, known_functions):
     """Expand call sites of helper methods that are new relative to the reviewed tree. Returns the list of inlined names."""
     done = []
+    done += _inline_module_functions(module_name, tree, known_functions)
     for cls in [n for n in ast.walk(tree) if isinstance(n, ast.ClassDef)]:
         methods = {m.name: m for m in cls.body if isinstance(m, (ast.FunctionDef, ast.AsyncFunctionDef))}
         prefix = _qual_prefix(tree, cls, module_name)
@@ -86,7 +135,15 @@ def inline_new_helpers(module_name, tree, known_functions):
             body = [s for s in helper.body if not (isinstance(s, ast.Expr) and isinstance(s.value, ast.Constant))]
             rets = [n for n in _own_nodes(helper) if isinstance(n, ast.Return)]
             if len(rets) > 1 or (rets and rets[0] is not body[-1]):
-                continue
+                if all(r.value is None for r in rets) and not _always_returns(body):
+                    body = body + [ast.copy_location(ast.Return(value=None), body[-1])]
+                lad = _ladder([_clone(x) for x in body], "_r_" + name.strip("_"))
+                if lad is None or not _always_returns(body):
+                    continue
+                body = lad + [ast.Return(value=ast.Name(id="_r_" + name.strip("_"), ctx=ast.Load()))]
+                for x in body:
+                    ast.fix_missing_locations(ast.copy_location(x, helper))
+                rets = [body[-1]]
             if any(isinstance(n, (ast.Yield, ast.YieldFrom)) for n in _own_nodes(helper)):
                 continue
             # call sites: self.<name>(...) / cls.<name>(...) in methods of this class
@@ -100,7 +157,7 @@ def inline_new_helpers(module_name, tree, known_functions):
                         if isinstance(f, ast.Attribute) and f.attr == name and isinstance(f.value, ast.Name) and f.value.id in ("self", "cls", cls.name):
                             sites.append((m, st, c))
             expr_helper = len(body) == 1 and isinstance(body[0], ast.Return) and body[0].value is not None and not is_async
-            if not sites or (len(sites) != 1 and not expr_helper):
+            if not sites:
                 continue
             if expr_helper and len(sites) > 1:
                 ok_all = True
@@ -117,14 +174,71 @@ def inline_new_helpers(module_name, tree, known_functions):
                 cls.body.remove(helper)
                 done.append(q)
                 continue
-            caller, st, call = sites[0]
-            if is_async and not isinstance(getattr(call, "_p", None), ast.Await) and not _awaited(st, call):
+            ok_sites = 0
+            for caller, st, call in sites:
+                if _inline_at(helper, body, rets, is_static, is_async, caller, st, call):
+                    ok_sites += 1
+            if ok_sites == len(sites):
+                cls.body.remove(helper)
+                done.append(q)
+            continue
+    return done
+
+
+def _inline_module_functions(module_name, tree, known_functions):
+    """Private module-level functions that are new relative to the reviewed tree, expanded at their call sites `name(...)`."""
+    done = []
+    funcs = {f.name: f for f in tree.body if isinstance(f, (ast.FunctionDef, ast.AsyncFunctionDef))}
+    callers = [n for n in ast.walk(tree) if isinstance(n, (ast.FunctionDef, ast.AsyncFunctionDef))]
+    for name, helper in list(funcs.items()):
+        q = f"{module_name}.{name}"
+        if q in known_functions or not name.startswith("_") or name.startswith("__") or helper.decorator_list:
+            continue
+        is_async = isinstance(helper, ast.AsyncFunctionDef)
+        body = [s for s in helper.body if not (isinstance(s, ast.Expr) and isinstance(s.value, ast.Constant))]
+        if any(isinstance(n, (ast.Yield, ast.YieldFrom)) for n in _own_nodes(helper)) or not body:
+            continue
+        rets = [n for n in _own_nodes(helper) if isinstance(n, ast.Return)]
+        if len(rets) > 1 or (rets and rets[0] is not body[-1]):
+            if all(r.value is None for r in rets) and not _always_returns(body):
+                body = body + [ast.copy_location(ast.Return(value=None), body[-1])]
+            lad = _ladder([_clone(x) for x in body], "_r_" + name.strip("_"))
+            if lad is None or not _always_returns(body):
                 continue
+            body = lad + [ast.Return(value=ast.Name(id="_r_" + name.strip("_"), ctx=ast.Load()))]
+            for x in body:
+                ast.fix_missing_locations(ast.copy_location(x, helper))
+            rets = [body[-1]]
+        sites = []
+        for m in callers:
+            if m is helper:
+                continue
+            for st in _own_stmts(m):
+                for c in _calls_in_stmt(st):
+                    if isinstance(c.func, ast.Name) and c.func.id == name:
+                        sites.append((m, st, c))
+        if not sites:
+            continue
+        # any other reference to the function (passed as a value) forbids removing it
+        refs = [n for n in ast.walk(tree) if isinstance(n, ast.Name) and n.id == name and isinstance(n.ctx, ast.Load)]
+        ok = 0
+        for caller, st, call in sites:
+            if _inline_at(helper, body, rets, True, is_async, caller, st, call):
+                ok += 1
+        if ok == len(sites) and len(refs) == len(sites):
+            tree.body.remove(helper)
+            done.append(q)
+    return done
+
+
+def _inline_at(helper, body, rets, is_static, is_async, caller, st, call):
+            if is_async and not isinstance(getattr(call, "_p", None), ast.Await) and not _awaited(st, call):
+                return False
             params = [a.arg for a in helper.args.args]
             if not is_static:
                 params = params[1:]
             if helper.args.vararg or helper.args.kwarg or helper.args.kwonlyargs or len(call.args) > len(params) or any(k.arg is None for k in call.keywords):
-                continue
+                return False
             mapping = {}
             for p, a in zip(params, call.args):
                 mapping[p] = a
@@ -140,16 +254,16 @@ def inline_new_helpers(module_name, tree, known_functions):
                         mapping = None
                         break
             if mapping is None:
-                continue
+                return False
             # arguments must be simple (names / attributes / constants) so that substitution does not duplicate effects
             if not all(isinstance(a, (ast.Name, ast.Attribute, ast.Constant)) for a in mapping.values()):
-                continue
+                return False
             hl = _local_names(helper)
             tgt_names = set()
             if isinstance(st, ast.Assign):
                 tgt_names = {x.id for t in st.targets for x in ast.walk(t) if isinstance(x, ast.Name)}
             if hl & set(params):
-                continue  # helper re-binds a parameter
+                return False  # helper re-binds a parameter
             clash = (hl & (_local_names(caller) | {a.arg for a in caller.args.args})) - tgt_names
             new_body = [_clone(s) for s in body]
             if clash:
@@ -173,7 +287,7 @@ def inline_new_helpers(module_name, tree, known_functions):
             repl = ret_expr if ret_expr is not None else ast.Constant(value=None)
             new_st = _replace_expr(st, target_expr, repl, is_async)
             if new_st is None:
-                continue
+                return False
             if isinstance(new_st, ast.Expr) and isinstance(new_st.value, ast.Constant):
                 new_stmts = new_body
             elif isinstance(new_st, ast.Assign) and len(new_st.targets) == 1 and isinstance(new_st.targets[0], ast.Name) \
@@ -181,11 +295,7 @@ def inline_new_helpers(module_name, tree, known_functions):
                 new_stmts = new_body  # x = x
             else:
                 new_stmts = new_body + [new_st]
-            if not _splice(caller, st, new_stmts):
-                continue
-            cls.body.remove(helper)
-            done.append(q)
-    return done
+            return _splice(caller, st, new_stmts)
 
 
 def _qual_prefix(tree, cls, module_name):
@@ -371,8 +481,36 @@ def _next_stmt(fn, st):
     return None
 
 
+def _negate(e):
+    if isinstance(e, ast.UnaryOp) and isinstance(e.op, ast.Not):
+        return e.operand
+    if isinstance(e, ast.Compare) and len(e.ops) == 1:
+        inv = {ast.Eq: ast.NotEq, ast.NotEq: ast.Eq, ast.Lt: ast.GtE, ast.GtE: ast.Lt, ast.Gt: ast.LtE, ast.LtE: ast.Gt,
+               ast.Is: ast.IsNot, ast.IsNot: ast.Is, ast.In: ast.NotIn, ast.NotIn: ast.In}.get(type(e.ops[0]))
+        if inv is not None:
+            return ast.copy_location(ast.Compare(left=e.left, ops=[inv()], comparators=e.comparators), e)
+    if isinstance(e, ast.BoolOp):
+        op = ast.And() if isinstance(e.op, ast.Or) else ast.Or()
+        return ast.copy_location(ast.BoolOp(op=op, values=[_negate(v) for v in e.values]), e)
+    return ast.copy_location(ast.UnaryOp(op=ast.Not(), operand=e), e)
+
+
+class _WhileBreak(ast.NodeTransformer):
+    """`while True:` whose first statement is `if C: break`  ->  `while not C:`  (no else clause involved)."""
+
+    def visit_While(self, n):
+        self.generic_visit(n)
+        if isinstance(n.test, ast.Constant) and n.test.value is True and not n.orelse and n.body:
+            first = n.body[0]
+            if isinstance(first, ast.If) and not first.orelse and len(first.body) == 1 and isinstance(first.body[0], ast.Break) and len(n.body) > 1:
+                n.test = _negate(first.test)
+                n.body = n.body[1:]
+        return n
+
+
 def lower_ifexp(tree):
-    return _IfExp().visit(tree)
+    tree = _IfExp().visit(tree)
+    return _WhileBreak().visit(tree)
 
 
 # ---- comprehension -> loop -----------------------------------------------------------------------------------------
@@ -425,3 +563,67 @@ def lower_comprehensions(fn):
         if _splice(fn, st, new):
             changed += 1
     return changed
+
+
+# ---- accumulate-in-a-loop -> comprehension (only for accumulators that are new relative to the reviewed function) -----
+def raise_new_accumulators(fn, reviewed_locals):
+    """`acc = []` immediately followed by `for T in IT: acc.append(E)` (acc a local the reviewed function does not have, the loop
+    without break/else) becomes `acc = [E for T in IT]`; likewise `acc = {}` + `acc[K] = V` and `acc = set()` + `acc.add(E)`."""
+    if reviewed_locals is None:
+        return []
+    done = []
+    for parent in list(ast.walk(fn)):
+        for f in ("body", "orelse", "finalbody"):
+            lst = getattr(parent, f, None)
+            if not isinstance(lst, list):
+                continue
+            i = 0
+            while i + 1 < len(lst):
+                a, loop = lst[i], lst[i + 1]
+                i += 1
+                tgt = None
+                if isinstance(a, ast.Assign) and len(a.targets) == 1 and isinstance(a.targets[0], ast.Name):
+                    tgt, init = a.targets[0].id, a.value
+                elif isinstance(a, ast.AnnAssign) and isinstance(a.target, ast.Name) and a.value is not None:
+                    tgt, init = a.target.id, a.value
+                if tgt is None or tgt in reviewed_locals or not isinstance(loop, ast.For) or loop.orelse or len(loop.body) != 1:
+                    continue
+                kind = None
+                if isinstance(init, ast.List) and not init.elts:
+                    kind = "list"
+                elif isinstance(init, ast.Dict) and not init.keys:
+                    kind = "dict"
+                elif isinstance(init, ast.Call) and isinstance(init.func, ast.Name) and init.func.id == "set" and not init.args:
+                    kind = "set"
+                if kind is None:
+                    continue
+                st = loop.body[0]
+                ifs = []
+                while isinstance(st, ast.If) and not st.orelse and len(st.body) == 1:
+                    ifs.append(st.test)
+                    st = st.body[0]
+                comp = None
+                gen = lambda: [ast.comprehension(target=loop.target, iter=loop.iter, ifs=ifs, is_async=0)]
+                if kind in ("list", "set") and isinstance(st, ast.Expr) and isinstance(st.value, ast.Call) and isinstance(st.value.func, ast.Attribute) \
+                        and isinstance(st.value.func.value, ast.Name) and st.value.func.value.id == tgt \
+                        and st.value.func.attr == ("append" if kind == "list" else "add") and len(st.value.args) == 1 and not st.value.keywords:
+                    comp = (ast.ListComp if kind == "list" else ast.SetComp)(elt=st.value.args[0], generators=gen())
+                elif kind == "dict" and isinstance(st, ast.Assign) and len(st.targets) == 1 and isinstance(st.targets[0], ast.Subscript) \
+                        and isinstance(st.targets[0].value, ast.Name) and st.targets[0].value.id == tgt:
+                    comp = ast.DictComp(key=st.targets[0].slice, value=st.value, generators=gen())
+                if comp is None:
+                    continue
+                # the accumulator must not be read inside the loop (other than the append itself)
+                reads = [n for n in ast.walk(loop) if isinstance(n, ast.Name) and n.id == tgt]
+                if len(reads) != 1:
+                    continue
+                if any(isinstance(n, (ast.Await, ast.Yield, ast.YieldFrom, ast.Break, ast.Continue, ast.Return)) for n in ast.walk(loop)):
+                    continue
+                new = ast.Assign(targets=[ast.Name(id=tgt, ctx=ast.Store())], value=comp, type_comment=None)
+                ast.copy_location(new, a)
+                for y in ast.walk(new):
+                    if hasattr(y, "lineno") or "lineno" in getattr(y, "_attributes", ()):
+                        y.lineno, y.col_offset, y.end_lineno, y.end_col_offset = a.lineno, a.col_offset, a.lineno, a.col_offset
+                lst[i - 1:i + 1] = [new]
+                done.append(tgt)
+    return done
